@@ -263,6 +263,85 @@ def run_ft(ctx):
                 ctx.violation('FourierTransform', cfg, 'raises:' + type(e).__name__, message=str(e)[:200])
 
 
+def run_planning(ctx):
+    """FFTW planner options: with 'measure' or more effort the planner overwrites the arrays it plans with, so the first
+    call for a (shape, dtype, direction) in a process is the hostile one (later calls hit the accumulated wisdom).  Every
+    worker process is fresh; shapes are drawn per case.  Values must equal the NumPy back-end / numpy.fft and the input
+    must survive."""
+    try:
+        from odl.trafos.backends.pyfftw_bindings import pyfftw_call, PYFFTW_AVAILABLE
+    except Exception:
+        return
+    if not PYFFTW_AVAILABLE:
+        ctx.note('planning', 'pyfftw not available')
+        return
+    rng = ctx.rng('planning')
+    for it in range(ctx.reps(6, 20)):
+        nd = int(rng.integers(1, 4))
+        shape = tuple(int(k) for k in rng.integers(3, 10, size=nd))
+        effort = ['measure', 'patient'][it % 2]
+        a = rng.normal(size=shape)
+        ac = a + 1j * rng.normal(size=shape)
+        # pyfftw_call directly: real / complex input, half-complex, in-place
+        calls = [('real->complex', a, lambda: np.empty(shape, dtype=complex), dict(halfcomplex=False), np.fft.fftn(a)),
+                 ('complex->complex', ac, lambda: np.empty(shape, dtype=complex), dict(), np.fft.fftn(ac)),
+                 ('real->halfcomplex', a, lambda: np.empty(shape[:-1] + (shape[-1] // 2 + 1,), dtype=complex), dict(halfcomplex=True), np.fft.rfftn(a))]
+        for cname, src, mkout, kw, ref in calls:
+            ctx.ev('dft-vs-numpy')
+            ctx.case('planning;pyfftw_call;%s;%s' % (cname, effort), (shape,))
+            cfg = 'pyfftw;planning=%s;%s' % (effort, cname)
+            try:
+                inp = src.copy()
+                out = mkout()
+                pyfftw_call(inp, out, planning_effort=effort, **kw)
+                if not np.allclose(out, ref, rtol=1e-10, atol=1e-10 * max(1.0, np.abs(ref).max())):
+                    ctx.violation('pyfftw_call', cfg, '!=numpy.fft', shape=shape)
+                if not np.array_equal(inp, src):
+                    ctx.violation('pyfftw_call', cfg, 'input-modified', shape=shape)
+            except Exception as e:
+                ctx.violation('pyfftw_call', cfg, 'raises:' + type(e).__name__, message=str(e)[:200], shape=shape)
+        ctx.ev('dft-vs-numpy')
+        try:
+            z = ac.copy()
+            pyfftw_call(z, z, planning_effort=effort)
+            if not np.allclose(z, np.fft.fftn(ac), rtol=1e-10, atol=1e-10 * max(1.0, np.abs(ac).max() * ac.size)):
+                ctx.violation('pyfftw_call', 'pyfftw;planning=%s;in-place' % effort, '!=numpy.fft', shape=shape)
+        except Exception as e:
+            ctx.violation('pyfftw_call', 'pyfftw;planning=%s;in-place' % effort, 'raises:' + type(e).__name__, message=str(e)[:200], shape=shape)
+        # the operators, option handed through the call and through init_fftw_plan
+        shape2 = tuple(int(k) for k in rng.integers(3, 10, size=nd))
+        for dt in ('float64', 'complex128'):
+            sp = odl.uniform_discr([-1.0] * nd, [1.0] * nd, shape2, dtype=dt)
+            x = util.rand_element(sp, rng)
+            xa = np.asarray(x).copy()
+            for opname, mk in (('FourierTransform', lambda impl: T.FourierTransform(sp, impl=impl, halfcomplex=False)),
+                               ('FourierTransform/hc', lambda impl: T.FourierTransform(sp, impl=impl)),
+                               ('DiscreteFourierTransform', lambda impl: T.DiscreteFourierTransform(sp, impl=impl, halfcomplex=False))):
+                for how in ('call-kwarg', 'init_fftw_plan'):
+                    ctx.ev('backends-agree')
+                    ctx.case('planning;%s;%s;%s' % (opname, how, effort), (shape2, dt))
+                    cfg = 'pyfftw;planning=%s;%s;%s' % (effort, how, 'real' if dt == 'float64' else 'complex')
+                    try:
+                        Fn, Fp = mk('numpy'), mk('pyfftw')
+                        ref = np.asarray(Fn(x))
+                        if how == 'call-kwarg':
+                            got = np.asarray(Fp(x, planning_effort=effort)) if opname.startswith('Fourier') else np.asarray(Fp(x, flags=('FFTW_' + effort.upper(),)))
+                        else:
+                            Fp.init_fftw_plan(planning_effort=effort)
+                            got = np.asarray(Fp(x))
+                        if not np.allclose(got, ref, rtol=1e-10, atol=1e-10 * max(1e-300, np.abs(ref).max())):
+                            ctx.violation(opname.split('/')[0], cfg, 'backends-differ', shape=shape2)
+                        if not np.array_equal(np.asarray(x), xa):
+                            ctx.violation(opname.split('/')[0], cfg, 'input-modified', shape=shape2)
+                        ctx.ev('ft-inverse')
+                        y = Fp.range.element(ref.copy())
+                        back = np.asarray(Fp.inverse(y, planning_effort=effort)) if opname.startswith('Fourier') else np.asarray(Fp.inverse(y, flags=('FFTW_' + effort.upper(),)))
+                        if not np.allclose(back, xa, rtol=1e-9, atol=1e-9 * max(1.0, np.abs(xa).max())):
+                            ctx.violation(opname.split('/')[0] + 'Inverse', cfg, 'inverse(forward(x))!=x', shape=shape2)
+                    except Exception as e:
+                        ctx.violation(opname.split('/')[0], cfg, 'raises:' + type(e).__name__, message=str(e)[:200], shape=shape2)
+
+
 def run_refinement(ctx):
     for nd in (1, 2):
         for impl in ('numpy', 'pyfftw'):
@@ -400,6 +479,7 @@ def run(ctx):
             for m in ('_call', '_call_numpy', '_call_pyfftw', '_preprocess', '_postprocess'):
                 cov.add(vars(c).get(m), '%s.%s' % (cname, m))
     cov.arm()
+    run_planning(ctx)      # first, while the process has no FFTW wisdom yet
     run_dft(ctx)
     run_ft(ctx)
     run_wavelets(ctx)
